@@ -115,13 +115,13 @@ func (m *MTProto) makeAuthKey() error { // nolint don't know how to make method 
 
 	// I don't know what it is, apparently some very specific way to generate keys
 	t4 := make([]byte, 32+1+8) // nolint:gomnd ALL PROTOCOL IS A MAGIC
-	copy(t4[0:], nonceSecond.Bytes())
+	copy(t4[0:], dry.BigIntBytes(nonceSecond.Int, 256)) // all 32 bytes: Bytes() drops leading zero bytes
 	t4[32] = 1
 	copy(t4[33:], dry.Sha1Byte(m.GetAuthKey())[0:8])
 	nonceHash1 := dry.Sha1Byte(t4)[4:20]
 	salt := make([]byte, tl.LongLen)
-	copy(salt, nonceSecond.Bytes()[:8])
-	math.Xor(salt, nonceServer.Bytes()[:8])
+	copy(salt, dry.BigIntBytes(nonceSecond.Int, 256)[:8])
+	math.Xor(salt, dry.BigIntBytes(nonceServer.Int, 128)[:8])
 	m.serverSalt = int64(binary.LittleEndian.Uint64(salt))
 
 	// (encoding) client_DH_inner_data
